@@ -289,6 +289,9 @@ func (g *gen) genSig(i int) *Fn {
 		f.Name = fmt.Sprintf("M%d", i)
 	case 1:
 		f.Recv = TS
+		if g.off("struct-value-copy") {
+			f.Recv = TPS
+		}
 		f.Name = fmt.Sprintf("M%d", i)
 	}
 	if g.chance(10, "rec") && !g.p.Off["recursion"] {
